@@ -22,6 +22,8 @@ struct TyOps {
     mul: Bin,
     neg: Option<Un>,
     cmp: fn(i128, i128) -> (Ordering, Option<Ordering>, bool, bool, bool),
+    /// the remaining comparison entry points: `>`, `>=`, `!=`, `Ord::max`, `Ord::min` (each may be overridden separately)
+    cmp2: fn(i128, i128) -> (bool, bool, bool, i128, i128),
     consts: fn() -> (i128, i128, i128), // MIN, MAX, EQUILIBRIUM as exported
 }
 
@@ -43,6 +45,10 @@ macro_rules! ty_ops {
             cmp: |a, b| {
                 let (x, y) = ($T::new_unchecked(a as $Rep), $T::new_unchecked(b as $Rep));
                 (x.cmp(&y), x.partial_cmp(&y), x == y, x < y, x <= y)
+            },
+            cmp2: |a, b| {
+                let (x, y) = ($T::new_unchecked(a as $Rep), $T::new_unchecked(b as $Rep));
+                (x > y, x >= y, x != y, Ord::max(x, y).inner() as i128, Ord::min(x, y).inner() as i128)
             },
             consts: || (dasp_sample::types::$m::MIN.inner() as i128, dasp_sample::types::$m::MAX.inner() as i128,
                         dasp_sample::types::$m::EQUILIBRIUM.inner() as i128),
@@ -438,6 +444,11 @@ fn run(a: &Args) {
                 if o != x.cmp(&y) || po != Some(x.cmp(&y)) || e != (x == y) || lt != (x < y) || le != (x <= y) {
                     cx.st.oracle_fail(&format!("{}: ordering/equality must coincide with numeric order", t.name), &format!("ty {} {} cmp {} {}", t.name, mode, x, y),
                         &format!("{:?} eq={}", x.cmp(&y), x == y), &format!("{:?} {:?} eq={} lt={} le={}", o, po, e, lt, le));
+                } else { cx.st.oracle_ok(1); }
+                let (gt, ge, ne, mx, mn) = (t.cmp2)(x, y);
+                if gt != (x > y) || ge != (x >= y) || ne != (x != y) || mx != x.max(y) || mn != x.min(y) {
+                    cx.st.oracle_fail(&format!("{}: ordering/equality must coincide with numeric order (operators >, >=, !=, Ord::max, Ord::min)", t.name), &format!("ty {} {} cmp {} {}", t.name, mode, x, y),
+                        &format!("gt={} ge={} ne={} max={} min={}", x > y, x >= y, x != y, x.max(y), x.min(y)), &format!("gt={} ge={} ne={} max={} min={}", gt, ge, ne, mx, mn));
                 } else { cx.st.oracle_ok(1); }
             }
             cx.st.case(&line, &obs, true, chunk.len() as u64);
